@@ -110,22 +110,34 @@ def run(prog, rep, tier, repo):
             self.bb = bb
             self.span = span
     pushes = []
+
     for c in raw_pushes:
         v = c.args[1]
         defs = [st for st in f.stores() if st.target == v] if tag(v) == 'local' else []
         if defs:
             for st in defs:
-                pushes.append(Site(st.value, st.bb, st.span))
+                pushes.append(Site(prog.inline(st.value), st.bb, st.span))     # formulas kept in straight-line helpers are read through
         else:
-            pushes.append(Site(v, c.bb, c.span))
+            pushes.append(Site(prog.inline(v), c.bb, c.span))
     fills = {}
     extrap = []
     inrange = []
+    nlen = poly(('len', x))
+
+    def fixed_knot(ixp):
+        # a knot index fixed relative to the table: a constant (from the front) or len(x) - constant (from the back)
+        return pconst(ixp) is not None or pconst(psub(ixp, nlen)) is not None
     for c in pushes:
         v = c.args[1]
         if tag(v) == 'field' and tag(v[1]) == 'downcast' and v[1][1] == mode:
             fills[v[2]] = c
-        elif any(tag(z) == 'local' or z in bounds for z in subterms(v)):      # mentions the bracket index (counter or counting call)
+            continue
+        knots = [poly(z[2]) for z in subterms(v) if tag(z) == 'index' and z[1] in (x, y)]
+        if knots and all(fixed_knot(p_) for p_ in knots):
+            extrap.append(c)          # a formula over knots at fixed positions: an extrapolation handler
+        elif knots:
+            inrange.append(c)         # reads knots at a computed position: the bracketed (in-range) formula
+        elif any(tag(z) == 'local' or z in bounds for z in subterms(v)):
             inrange.append(c)
         else:
             extrap.append(c)
@@ -160,6 +172,7 @@ def run(prog, rep, tier, repo):
                 terms.append(f.rvalue_term(s.rv, bb))
         if blk.term.kind == 'call':
             terms += [f.operand_term(a) for a in blk.term.args]
+        terms += [c_.args[1] for c_ in pushes if c_.bb == bb]          # result values with helper calls read through
         for t in terms:
             for z in subterms(t):
                 if tag(z) == 'index' and tag(z[1]) == 'arg' and (z, ) not in seen:
@@ -194,7 +207,9 @@ def run(prog, rep, tier, repo):
         n = poly(('len', x))
         left = all(pconst(p) in (0, 1) for p in polys)
         right = all(pconst(psub(p, n)) in (-1, -2) for p in polys)
-        if left or right:
+        if not polys:
+            rep.undecided('extrapolate-anchor', key, 'extrapolation value %s reads no knot directly (formula not read)' % show(c.args[1])[:60], site_of(c.span), proof=False)
+        elif left or right:
             rep.ok('extrapolate-anchor', key, '%s segment: indices %s' % ('first' if left else 'last', idxs))
         else:
             rep.viol('extrapolate-anchor', key, 'extrapolation formula uses knots %s: not the first (0,1) nor the last (n-2,n-1) segment' % idxs, site_of(c.span))
@@ -202,9 +217,11 @@ def run(prog, rep, tier, repo):
         kinds = []
         for c in ex_sorted[:2]:
             polys = [poly(z[2]) for z in subterms(c.args[1]) if tag(z) == 'index' and z[1] in (x, y)]
-            kinds.append('left' if all(pconst(p) in (0, 1) for p in polys) else 'right')
+            kinds.append('unread' if not polys else 'left' if all(pconst(p) in (0, 1) for p in polys) else 'right')
         key = 'extrapolate-anchor:%s:both-sides' % short(K)
-        if set(kinds) == {'left', 'right'}:
+        if 'unread' in kinds:
+            rep.undecided('extrapolate-anchor', key, 'an extrapolation value reads no knot directly (formula not read)', site_of(f.body), proof=False)
+        elif set(kinds) == {'left', 'right'}:
             rep.ok('extrapolate-anchor', key, 'one formula per side')
         else:
             rep.viol('extrapolate-anchor', key, 'extrapolation formulas cover sides %s' % kinds, site_of(f.body))
@@ -317,7 +334,7 @@ def run(prog, rep, tier, repo):
         exits = [(cn, v) for s_, d_, cn, v in f.edge_conditions() if s_ in li['blocks'] and d_ not in li['blocks'] and not (tag(cn) == 'discr')]
         for cn, v in exits:
             # leaving means "knot > target"; staying (counting) means its negation
-            c = classify(cn, (not v), lambda t: tag(t) == 'index' and t[1] == x and t[2] == j, lambda t: tag(t) == 'index' and t[1] == tgt)
+            c = classify(cn, (not v), lambda t: tag(t) == 'index' and t[1] == x and t[2] == j, lambda t: _is_tgt_elem(t, tgt))
             if c is not None:
                 verdicts.append(('scan', c, show(cn)[:50], v))
     # (B) partition_point
@@ -332,6 +349,22 @@ def run(prog, rep, tier, repo):
                     return tag(t) == 'index' and tag(t[1]) == 'upvar' and t[1][1] < len(caps) and caps[t[1][1]] == tgt
                 cl = classify(rv[0], True, lambda t: t == xj or (tag(t) == 'deref' and t[1] == xj), tgt_is)
                 verdicts.append(('partition_point', cl or 'other', show(rv[0])[:50], True))
+    # (C) (0..n-1).position(|j| x[j] > t).unwrap_or(n-1): the first knot above the target, i.e. the count of leading knots <= target
+    for c in f.calls():
+        if c.path and short(c.path) == 'position' and len(c.args) == 2 and tag(c.args[1]) == 'agg' and c.args[1][1] == 'closure':
+            g = prog.func(c.args[1][2])
+            caps = c.args[1][3]
+            rv = g.return_values() if g is not None else []
+            it = c.args[0]
+            while tag(it) == 'call' and short(it[1]) in ('into_iter', 'by_ref') and it[2]:
+                it = it[2][0]
+            if len(rv) == 1 and tag(it) == 'range' and pconst(poly(it[1])) == 0:
+                j_ = ('arg', 2, g.names.get(2))
+                from ..structs import subst
+                rv2 = subst(rv[0], {z: caps[z[1]] for z in subterms(rv[0]) if tag(z) == 'upvar' and z[1] < len(caps)})
+                cl = classify(rv2, False, lambda t: tag(t) == 'index' and t[1] == x and t[2] == j_, lambda t: _is_tgt_elem(t, tgt))
+                if cl is not None:
+                    verdicts.append(('position', cl, show(rv2)[:50], True))
     if not verdicts:
         rep.undecided('bracket', key, 'no bracketing scan / partition_point recognised', site_of(f.body), proof=False)
     else:
@@ -353,16 +386,18 @@ def run(prog, rep, tier, repo):
     for gl in f.guards().values():
         for cn, v in gl:
             if tag(cn) == 'bin' and len(cn) > 4 and cn[4] in ('f64', 'f32') and cn[1] in ('Lt', 'Le', 'Gt', 'Ge') and cn not in conds:
-                has_t = any(tag(z) == 'index' and z[1] == tgt for z in subterms(cn))
+                has_t = any(_is_tgt_elem(z, tgt) for z in subterms(cn))
                 has_x = any(tag(z) == 'index' and z[1] == x for z in subterms(cn))
                 if has_t and has_x:
                     conds.append(cn)
     for st in f.stores():
         for z in subterms(st.value):
             if tag(z) == 'bin' and len(z) > 4 and z[4] in ('f64', 'f32') and z[1] in ('Lt', 'Le', 'Gt', 'Ge') and z not in conds:
-                if any(tag(q) == 'index' and q[1] == tgt for q in subterms(z)) and any(tag(q) == 'index' and q[1] == x for q in subterms(z)):
+                if any(_is_tgt_elem(q, tgt) for q in subterms(z)) and any(tag(q) == 'index' and q[1] == x for q in subterms(z)):
                     conds.append(z)
-    bad = [cn for cn in conds if not (tag(cn[2]) == 'index' and tag(cn[3]) == 'index')]
+    def plain(t):
+        return (tag(t) == 'index' and t[1] in (x, tgt)) or _is_tgt_elem(t, tgt)
+    bad = [cn for cn in conds if not (plain(cn[2]) and plain(cn[3]))]
     if not conds:
         rep.undecided('range-test', key, 'no comparison of a target with a knot found', site_of(f.body), proof=False)
     elif bad:
@@ -408,6 +443,20 @@ def _orders_adjacent(cn, v, x, i):
     return False
 
 
+def _is_tgt_elem(t, tgt):
+    """one element of the target slice: tgt[i], or the item of a loop over tgt / tgt.iter()"""
+    while tag(t) in ('deref',) or (tag(t) == 'call' and short(t[1]) in ('deref', 'clone') and len(t[2]) == 1):
+        t = t[1] if tag(t) == 'deref' else t[2][0]
+    if tag(t) == 'index' and t[1] == tgt:
+        return True
+    if tag(t) == 'item':
+        it = t[2]
+        while tag(it) == 'call' and short(it[1]) in ('iter', 'into_iter', 'copied', 'cloned', 'deref') and it[2]:
+            it = it[2][0]
+        return it == tgt
+    return False
+
+
 def _match_convex(v, x, y, tgt):
     """v = r*y[k] + (1-r)*y[km1] (either operand order of + and *)"""
     if tag(v) != 'bin' or v[1] != 'Add':
@@ -433,9 +482,9 @@ def _match_convex(v, x, y, tgt):
                     if tag(r) == 'bin' and r[1] == 'Div' and tag(r[2]) == 'bin' and r[2][1] == 'Sub' and tag(r[3]) == 'bin' and r[3][1] == 'Sub':
                         t_, xl = r[2][2], r[2][3]
                         xh, xl2 = r[3][2], r[3][3]
-                        if tag(t_) == 'index' and t_[1] == tgt and xl == ('index', x, km) and xl2 == xl and xh == ('index', x, k):
+                        if _is_tgt_elem(t_, tgt) and xl == ('index', x, km) and xl2 == xl and xh == ('index', x, k):
                             return True, show(k)
-                        if xl == xl2 and tag(xl) == 'index' and xl[1] == x and peq(poly(xl[2]), poly(km)) and tag(xh) == 'index' and xh[1] == x and peq(poly(xh[2]), poly(k)) and tag(t_) == 'index' and t_[1] == tgt:
+                        if xl == xl2 and tag(xl) == 'index' and xl[1] == x and peq(poly(xl[2]), poly(km)) and tag(xh) == 'index' and xh[1] == x and peq(poly(xh[2]), poly(k)) and _is_tgt_elem(t_, tgt):
                             return True, show(k)
                     return False, 'ratio %s is not (t - x[k-1])/(x[k] - x[k-1]) with the same k' % show(r)[:120]
     return False, 'weights are not r and 1 - r on neighbouring ordinates'
